@@ -276,6 +276,7 @@ pub fn cfg_strategy(p: &Profile) -> BoxedStrategy<Cfg> {
             stream_self_wakes: if ssw { sswn } else { 0 },
             guard_syncs,
             stream_wakes_on_drop,
+            payload_bomb: false,
         })
         .boxed()
 }
